@@ -124,7 +124,7 @@ def canon(w):
             fp = w.focus_position
         except IndexError:
             fp = None
-        return ("ListBox", fp, w.offset_rows, w.inset_fraction, w.pref_col, repr(w.set_focus_pending), repr(w.set_focus_valign_pending), kids)
+        return ("ListBox", fp, getattr(w.body, "_focus", None), w.offset_rows, w.inset_fraction, w.pref_col, repr(w.set_focus_pending), repr(w.set_focus_valign_pending), kids)
     if isinstance(w, urwid.Frame):
         return ("Frame", w.focus_part, kids)
     if isinstance(w, CONTAINERS):
@@ -132,7 +132,8 @@ def canon(w):
             fp = w.focus_position
         except IndexError:
             fp = None
-        return (type(w).__name__, fp, getattr(w, "pref_col", None), kids)
+        # (the raw index kept by the contents list is hidden state of an emptied container: two empty containers may differ in it)
+        return (type(w).__name__, fp, getattr(getattr(w, "contents", None), "_focus", None), getattr(w, "pref_col", None), kids)
     return (type(w).__name__, kids)
 
 
@@ -210,6 +211,7 @@ class Spec:
                 for i in sorted({0, n // 2, n}):
                     out.append(("ins", ci, i, True))
                 out.append(("ins", ci, n, False))
+                out.append(("iadd", ci))
                 if n:
                     out.append(("assign", ci, 0, False))
                 out.append(("setall", ci, 1))
@@ -543,6 +545,11 @@ class Spec:
                     cont.body.insert(op[2], w)
                 else:
                     cont.contents.insert(op[2], (w, cont.options()))
+            elif kind == "iadd":
+                # += on the live contents list (a helper that was handed the list), not on the property
+                st.n_new += 1
+                live = cont.contents
+                live += [(L(f"n{st.n_new}", sel=True), cont.options())]
             elif kind == "assign":
                 st.n_new += 1
                 w = L(f"n{st.n_new}", sel=op[3])
